@@ -947,6 +947,8 @@ static uint16_t symbol_table_insert_name(
   const char *name,
   uint32_t length
 ) {
+  // An empty name (e.g. the string literal "" in a predicate) may come with a null pointer.
+  if (!name) name = "";
   int id = symbol_table_id_for_name(self, name, length);
   if (id >= 0) return (uint16_t)id;
   Slice slice = {
